@@ -192,8 +192,21 @@ func execC20(c C20Case, bound time.Duration) (string, error) {
 		}
 	}
 	fbArg := "unix:" + fallback.addr
+	victim := ""
 	if c.BadAddr != "" && want >= 0 && (c.Kind == "unix" || c.Kind == "tcp") {
 		fbArg = strings.TrimPrefix(c.BadAddr, "literal:")
+		if c.BadAddr == "existing-file" {
+			// the address names an existing filesystem object: since the address is ignored, it must not be touched
+			f, ferr := os.CreateTemp("", "c20victim")
+			if ferr != nil {
+				return "", fmt.Errorf("HARNESS: %v", ferr)
+			}
+			f.WriteString("do not remove")
+			f.Close()
+			victim = f.Name()
+			defer os.Remove(victim)
+			fbArg = "unix:" + victim
+		}
 	}
 	env = append(env, "VERIF_HELPER=activation", "VERIF_PID_MODE="+c.PID, "VERIF_TOKEN="+token, "VERIF_FALLBACK="+fbArg)
 	if c.FDS != envUnset {
@@ -312,6 +325,11 @@ func execC20(c C20Case, bound time.Duration) (string, error) {
 	}
 	if msg := stop(); msg != "" {
 		return verdict, fmt.Errorf("%s", msg)
+	}
+	if victim != "" {
+		if _, serr := os.Lstat(victim); serr != nil {
+			return verdict, fmt.Errorf("socket activation was selected, so the address argument %q must be ignored, but the file it names was removed", "unix:"+victim)
+		}
 	}
 	return verdict, nil
 }
@@ -450,7 +468,7 @@ func TestC20Product(t *testing.T) {
 	for i := 0; i < n0; i++ {
 		c := cases[i]
 		if modelActivation(c) >= 0 && (c.Kind == "unix" || c.Kind == "tcp") {
-			for _, bad := range []string{"literal:", "literal:unix:", "literal:nonsense", "literal:udp:127.0.0.1:1"} {
+			for _, bad := range []string{"literal:", "literal:unix:", "literal:nonsense", "literal:udp:127.0.0.1:1", "existing-file"} {
 				c2 := c
 				c2.BadAddr, c2.Origin = bad, "product+bad-address"
 				cases = append(cases, c2)
